@@ -83,10 +83,18 @@ func propC13(c *Ctx) {
 			{Kind: "call", Target: "(*stack.Route).WritePacket", Args: []string{"$1", "new(buffer.Prependable)@2", "new(buffer.VectorisedView)@2", "58", "(*stack.Route).DefaultTTL($1)"}, Guards: echo, Exact: true, N: 1, Why: "one reply on the inbound route with the trimmed payload"},
 		})
 		c.Ordered(i4, fn, []string{"copy header", "set type", "checksum", "write"}, []func(Site) bool{
-			func(s Site) bool { return s.Kind == "call" && s.Target == "builtin:copy" && len(s.Args) == 2 && s.Args[0] == out },
-			func(s Site) bool { return s.Kind == "call" && s.Target == "header.ICMPv6.SetType" && s.Args[1] == "129" },
-			func(s Site) bool { return s.Kind == "call" && s.Target == "header.ICMPv6.SetChecksum" && s.Args[0] == out },
-			func(s Site) bool { return s.Kind == "call" && s.Target == "(*stack.Route).WritePacket" && s.Args[3] == "58" && strings.HasPrefix(s.Args[0], "$1") },
+			func(s Site) bool {
+				return s.Kind == "call" && s.Target == "builtin:copy" && len(s.Args) == 2 && s.Args[0] == out
+			},
+			func(s Site) bool {
+				return s.Kind == "call" && s.Target == "header.ICMPv6.SetType" && s.Args[1] == "129"
+			},
+			func(s Site) bool {
+				return s.Kind == "call" && s.Target == "header.ICMPv6.SetChecksum" && s.Args[0] == out
+			},
+			func(s Site) bool {
+				return s.Kind == "call" && s.Target == "(*stack.Route).WritePacket" && s.Args[3] == "58" && strings.HasPrefix(s.Args[0], "$1")
+			},
 		})
 	}
 	if fn := c.Fn(i4, "stack.makeRoute"); fn != nil {
